@@ -828,12 +828,18 @@ def convert_list(string: str) -> List[str]:
 class UserConfig(configparser.ConfigParser):
     def __init__(self, *args, **kwargs):
         kwargs["converters"] = {"list": convert_list}
+        # Values are stored and returned verbatim: with configparser's default
+        # BasicInterpolation a "%" (e.g. in a URL) is a syntax error on get/set
+        kwargs.setdefault("interpolation", None)
         super().__init__(*args, **kwargs)
 
 
 class LibraryConfig(configparser.ConfigParser):
     def __init__(self, *args, **kwargs):
         kwargs["converters"] = {"list": convert_list}
+        # Values are stored and returned verbatim: with configparser's default
+        # BasicInterpolation a "%" (e.g. in a URL) is a syntax error on get/set
+        kwargs.setdefault("interpolation", None)
         super().__init__(*args, **kwargs)
 
 
